@@ -128,17 +128,20 @@ def genPacked (o : POpts) (f : PField) : Bool :=
 
 def genDflt (o : POpts) (f : PField) : Dflt :=
   match f.dflt with
-  | .none => if o.syntax3 && f.type == .string then .emptyStr else .none
+  | .none => if o.syntax3 && f.type == .string && !f.stringAsBytes then .emptyStr else .none   -- (a string_as_bytes field is a BYTES field)
   | d => d
+
+/-- the name a field descriptor carries: the field's, or — under (pb_c_file).use_oneof_field_name — its oneof's -/
+def nameKey (o : POpts) (f : PField) : String :=
+  match o.useOneofName, f.oneof with
+  | true, some (_, n) => n
+  | _, _ => f.name
 
 def genField (o : POpts) (f : PField) : GField :=
   let lab := if f.oneof.isSome then (if o.syntax3 then Label.none else Label.optional) else genLabel o f
   { d := { name := f.name, id := f.number, label := lab, type := genType f, packed := genPacked o f,
            group := f.oneof.map (·.1), sub := f.sub, dflt := genDflt o f, init := none },
-    emittedName := if o.codeSize then none
-                   else some (match o.useOneofName, f.oneof with
-                              | true, some (_, n) => n
-                              | _, _ => f.name),
+    emittedName := if o.codeSize then none else some (nameKey o f),
     deprecated := f.deprecated }
 
 /-! ### messages -/
@@ -169,15 +172,17 @@ def genFields (m : PMsg) : List GField := (sortByNumber m.fields).map (genField 
 def bytesOfString (s : String) : List Nat := s.toUTF8.toList.map (·.toNat)
 
 /-- sort of (name bytes, index) by `std::string::compare` (byte-wise) -/
-def sortByName (l : List (List Nat × Nat)) : List (List Nat × Nat) := isort (fun a b => cmpBytes a.1 b.1 == .lt) l
+def sortByName (l : List (List Nat × Nat)) : List (List Nat × Nat) := isort (fun a b => cmpBytes a.1 b.1 != .gt) l
+-- (`!= .gt`: equal names keep their order, as the merge sort behind glibc's qsort does; names are pairwise distinct except
+--  for members of one oneof under use_oneof_field_name)
 
 def enumFrom {α} : Nat → List α → List (α × Nat)
   | _, [] => []
   | i, a :: as => (a, i) :: enumFrom (i + 1) as
 
-/-- `field_indices_by_name`: indices into the number-sorted table, ordered by the PROTO field name -/
+/-- `field_indices_by_name`: indices into the number-sorted table, ordered by the name the descriptor carries -/
 def genByName (m : PMsg) : List (List Nat × Nat) :=
-  sortByName ((enumFrom 0 (sortByNumber m.fields)).map (fun (f, i) => (bytesOfString f.name, i)))
+  sortByName ((enumFrom 0 (sortByNumber m.fields)).map (fun (f, i) => (bytesOfString (nameKey m.opts f), i)))
 
 def genRanges (m : PMsg) : Ranges := mkRanges ((sortByNumber m.fields).map (fun f => (f.number : Int)))
 
